@@ -39,6 +39,10 @@ RANGE = swapper([
 ])
 
 
+RANGE_TYPE_ONLY = swapper([("RangeIter", "RevRangeIter")])
+PREFIX_TYPE_ONLY = swapper([("PrefixIter", "RevPrefixIter")])
+
+
 def rpo(body):
     seen = set()
     order = []
@@ -77,7 +81,7 @@ def skeleton(body, rename=lambda s: s):
             if rv["rv"] == "bin" and rv["op"] in CMP:
                 out.append((("cmp", rename(rv["op"])), Site(bb, i)))
             elif rv["rv"] == "agg" and rv["ak"] == "adt":
-                out.append((("agg", rv["adt"].split("::")[-1], rv["variant"]), Site(bb, i)))
+                out.append((("agg", rename(rv["adt"].split("::")[-1]), rename(rv["variant"])), Site(bb, i)))
             elif rv["rv"] == "cast" and rv["ck"].startswith("Transmute"):
                 out.append((("transmute",), Site(bb, i)))
         t = blk["term"]
